@@ -106,6 +106,13 @@ def gen(rng, tier, escalate):
                         cfg[5] += " mtu 1300"
                     cases.append({"cfg": cfg, "ibl": True, "q": {"k": k, "rx": r"mtu (\d+)", "group": 1, "ty": ty, "default": {"t": "str", "v": "-1"},
                                                               "untyped": False, "recurse": rc, "line": 0, "kwdefaults": False}})
+    # banner and macro bodies (their lines are children of the opening line whatever their indentation)
+    body = ["banner motd ^", " mtu 1500", " mtu 1400", "mtu 1300", "^", "macro name m1", " mtu 9", " mtu 8", "@", "interface Eth1", " mtu 7"]
+    for line in (0, 5, 9):
+        for rc in (False, True):
+            for k in ("iter", "list"):
+                cases.append({"cfg": list(body), "ibl": True, "q": {"k": k, "rx": r"mtu (\d+)", "group": 1, "ty": "int", "default": {"t": "str", "v": "-1"},
+                                                                  "untyped": False, "recurse": rc, "line": line, "kwdefaults": False}})
     return cases
 
 
@@ -139,7 +146,9 @@ def run(case):
     if q.get("edit") is not None and n0 > 0:
         src = p.objs[q["edit"] % n0].text
         tgt = p.objs[q["line"] % n0]
-        if not tgt.is_comment and src.strip() and not src.lstrip().startswith("!"):
+        # an ordinary command is replaced by the words of another ordinary command (same column): the class of the line and
+        # therefore the tree stay what they were
+        if not tgt.is_comment and tgt.text.strip() and src.strip() and not src.lstrip().startswith("!"):
             tgt.text = " " * tgt.indent + src.lstrip()          # same column, another line's words
     f = S.dump_forest(p)
     n = len(f["par"])
